@@ -1,0 +1,11 @@
+//go:build verif
+
+package evm
+
+// VerifCloseRest closes the EVM database if Close() did not (no block was begun on this instance).
+func (ctrler *EVMCtrler) VerifCloseRest() {
+	if ctrler.ethDB != nil {
+		_ = ctrler.ethDB.Close()
+		ctrler.ethDB = nil
+	}
+}
